@@ -329,6 +329,23 @@ def fixed_oracle_cases():
     note = dict(file="note.md", title="Note", servings=None, links=[("Lfeast", "feast.md", ("recipe", "feast.md"))])
     two = dict(file="two.md", title="Two", servings=2, links=[("Lfeast2", "./feast.md#top", ("recipe", "feast.md"))])
     yield dict(name="root", readme=None, recipes=[feast, note, two], subdirs=[], assets=[]), 257
+    # source directories named like the site's own hierarchies, two levels down, with links into them from scalable recipes; a recipe that shares
+    # its stem with a sibling directory, both linked to (in every spelling a directory link can take)
+    rd = lambda t: dict(file="README.md", title=t, links=[], body="text")  # noqa
+    pasta, rice, naan = r("pasta.md", "Pasta", 2), r("rice.md", "Rice", 2), r("naan.md", "Naan", None)
+    soup = dict(file="soup.md", title="Soup", servings=2, links=[("Lp", "categories/pasta.md", ("recipe", "world/categories/pasta.md")), ("Lr", "serves2/rice.md", ("recipe", "world/serves2/rice.md")),
+                                                                ("Lc", "categories/", ("dir", "world/categories")), ("Ls", "serves2", ("dir", "world/serves2")),
+                                                                ("La", "/world/assets/naan.md", ("recipe", "world/assets/naan.md")), ("Lcr", "categories/README.md", ("readme", "world/categories/README.md"))])
+    bread = dict(file="bread.md", title="Bread", servings=2, links=[("Ld1", "bread/", ("dir", "bread")), ("Ld2", "bread", ("dir", "bread")), ("Ld3", "./bread/#x", ("dir", "bread")),
+                                                                  ("Lr1", "bread/rolls.md", ("recipe", "bread/rolls.md")), ("Lself", "bread.md", ("recipe", "bread.md"))])
+    rolls = dict(file="rolls.md", title="Rolls", servings=3, links=[("Lup", "../bread.md", ("recipe", "bread.md")), ("Ldir", "../bread/", ("dir", "bread")), ("Ldot", ".", ("dir", "bread"))])
+    yield dict(name="root", readme=dict(file="README.md", title="Book", body="text", links=[("Lb", "bread", ("dir", "bread")), ("Lbm", "bread.md", ("recipe", "bread.md"))]),
+               recipes=[bread], assets=[],
+               subdirs=[dict(name="bread", readme=None, recipes=[rolls], subdirs=[], assets=[]),
+                        dict(name="world", readme=None, recipes=[soup], assets=[],
+                             subdirs=[dict(name="categories", readme=rd("Cats"), recipes=[pasta], subdirs=[], assets=[]),
+                                      dict(name="serves2", readme=None, recipes=[rice], subdirs=[], assets=[]),
+                                      dict(name="assets", readme=None, recipes=[naan], subdirs=[], assets=[])])]), 3
 
 
 def check_regeneration():
